@@ -113,7 +113,7 @@ def dimarray_oracle(o1_is, o2_is):
             return False
         if atom[0] == 'cmp' and atom[1] == '<' and 'ndim' in T.show(atom):
             return False
-        if atom == ('cmp', 'is', P_('constructor'), T.CONST_NONE):
+        if atom == T.mkcmp('is', P_('constructor'), T.CONST_NONE):
             return False
         return None
     return oracle
